@@ -38,7 +38,8 @@ var c17Immutable = []string{"id", "addr", "keyInfo", "policy", "lease", "tag", "
 
 // c17OwnerExempt: unlocked READS that are safe because the reading function runs on the only
 // goroutine that ever writes the field. One symbol per line; the premise is re-verified on each run
-// (all writers of the field and the reader are called, by plain calls, only from `owner`).
+// (every function writing the field, and the reader, is `owner` or reached from it by plain calls only;
+// `writers` documents who writes today and is not itself demanded).
 var c17OwnerExempt = []struct {
 	pkg, typ, field, reader, owner string
 	writers                        []string
@@ -111,28 +112,18 @@ func c17r1(c *Ctx) {
 		if f == nil || reader == nil || owner == nil {
 			continue
 		}
-		allowed := map[*ssa.Function]bool{}
-		for _, w := range e.writers {
-			if wf := c.needFn(rule, e.pkg, w); wf != nil {
-				allowed[wf] = true
-			}
-		}
+		// premise: every writer of the field and the reader run only on the owner's goroutine: they are the
+		// owner itself or helpers reached from it by plain calls only (never started with go, never used
+		// as a function value). The writers named in the table are today's; a helper they call is theirs.
+		onOwner := fnSet(owner)
 		premise := ""
 		for _, a := range c.c17accesses(f) {
-			if a.write && !a.fresh && !allowed[topFn(a.fn)] {
-				premise = fnName(a.fn) + " also writes the field"
+			if a.write && !a.fresh && !c.c17onlyCalledFrom(a.fn, onOwner, true, 0) {
+				premise = fnName(a.fn) + " also writes the field and is not confined to the goroutine of " + fnName(owner)
 			}
 		}
-		confined := append([]*ssa.Function{reader}, sortedFns(allowed)...)
-		for _, g := range confined {
-			for _, cs := range c.callSites(g.Object()) {
-				if _, plain := cs.Call.(*ssa.Call); !plain || cs.Fn != owner {
-					premise = fmt.Sprintf("%s is called from %s (not a plain call in %s)", fnName(g), fnName(cs.Fn), fnName(owner))
-				}
-			}
-			if len(c.c05funcValueUses(g)) > 0 {
-				premise = fnName(g) + " is used as a function value"
-			}
+		if !c.c17onlyCalledFrom(reader, onOwner, true, 0) {
+			premise = fnName(reader) + " is not called (by plain calls only) from " + fnName(owner)
 		}
 		key := fnName(reader) + "#" + e.typ + "." + e.field + ":read"
 		if premise == "" {
@@ -171,7 +162,11 @@ func c17r1(c *Ctx) {
 			total += perField[g.typ+"."+f]
 		}
 	}
-	c.MinCount(rule, "accesses to guarded fields of shared objects", total, 50)
+	nGuarded := 0
+	for _, g := range c17Guards {
+		nGuarded += len(g.fields)
+	}
+	c.MinCount(rule, "accesses to guarded fields of shared objects", total, nGuarded) // one per guarded field (each also checked above)
 	// set-once fields
 	ctor := c.needFn(rule, "security", "NewSessionEntry")
 	nImm := 0
@@ -184,7 +179,8 @@ func c17r1(c *Ctx) {
 		poss := map[*ssa.Function]token.Pos{}
 		for _, a := range c.c17accesses(f) {
 			nImm++
-			if a.write && !(a.fresh && topFn(a.fn) == ctor) {
+			// the constructor, or a helper only the constructor calls, initialises the fresh entry
+			if a.write && !(a.fresh && ctor != nil && c.c17onlyCalledFrom(a.fn, fnSet(ctor), false, 0)) {
 				wr = append(wr, a.fn)
 				poss[a.fn] = a.in.Pos()
 			}
@@ -194,7 +190,7 @@ func c17r1(c *Ctx) {
 		}
 		c.whoMay(rule, "write SessionEntry."+name+" (read without a lock everywhere)", wr, poss, fnSet())
 	}
-	c.MinCount(rule, "accesses to set-once SessionEntry fields", nImm, 14)
+	c.MinCount(rule, "accesses to set-once SessionEntry fields", nImm, len(c17Immutable)) // at least the constructor's write of each
 }
 
 // C17-R2: the handshake's configuration object is owned by the connection.
@@ -231,12 +227,12 @@ func c17r2(c *Ctx) {
 		}
 		nLib++
 		key := fnName(topFn(cs.Fn)) + "#NewAuthenticator-config"
-		ok, why := c05localCopy(cs.Fn, cs.Call.Common().Args[0])
+		ok, why := c.c05ownedAtCall(cs.Fn, cs.Call.Common().Args[0], 0)
 		c.Check(ok, rule, key, "passes the address of a per-connection copy", "hands NewAuthenticator a configuration object it does not own ("+why+"): concurrent handshakes sharing it race on, and swap, each other's ephemeral ECDH public key", cs.Call.Pos())
 	}
 	sort.Strings(skipped)
 	c.Note("%s: NewAuthenticator call sites outside the library packages (single-threaded mains, examples, test scaffolding), not checked: %s", rule, strings.Join(uniq(skipped), ", "))
-	c.MinCount(rule, "NewAuthenticator call sites in library packages", nLib, 6)
+	c.MinCount(rule, "NewAuthenticator call sites in library packages", nLib, 1)
 	// per-command selector implementations
 	nSel := 0
 	for _, fn := range c.ModFns {
@@ -255,25 +251,31 @@ func c17r2(c *Ctx) {
 			}
 			nSel++
 			key := fnName(topFn(fn)) + "#ServerConfigForCommand"
-			mc, ok := st.Val.(*ssa.MakeClosure)
 			var impl *ssa.Function
-			if ok {
-				impl, _ = mc.Fn.(*ssa.Function)
-			} else if f, isF := st.Val.(*ssa.Function); isF {
-				impl = f
+			switch x := c05resolve(st.Val).(type) {
+			case *ssa.MakeClosure: // function literal, or a method value (bound-method wrapper calling the method)
+				impl, _ = x.Fn.(*ssa.Function)
+			case *ssa.Function:
+				impl = x
 			}
 			if impl == nil || impl.Blocks == nil {
-				c.Undecided(rule, key, "the installed selector is not a function literal or named function", st.Pos())
+				c.Undecided(rule, key, "the installed selector is not a function literal, method value or named function", st.Pos())
 				return
 			}
 			good := true
+			ifr := c.c05rootFrame(impl)
 			for _, r := range c05returns(impl) {
-				v := r.Results[0]
-				if isNilConst(v) {
-					continue
-				}
-				if ok, _ := c05localCopy(impl, v); !ok {
-					good = false
+				for _, o := range ifr.origins(r.Results[0]) {
+					if isNilConst(o.v) {
+						continue
+					}
+					of := o.fr
+					if of == nil {
+						of = ifr
+					}
+					if ok, _ := c05ownedCopy(of, o.v); !ok {
+						good = false
+					}
 				}
 			}
 			c.Check(good, rule, key, "the selector returns nil or the address of a fresh copy", "the installed per-command selector returns a configuration object shared between connections; ServerHandshakeWithMessage writes this connection's ECDH public key into it", st.Pos())
@@ -434,8 +436,8 @@ func c17r3(c *Ctx) {
 	both := get(c17BothAPI)
 	send := c.c17effects(append(get(c17SendAPI), both...), streamT)
 	recv := c.c17effects(append(get(c17RecvAPI), both...), streamT)
-	c.MinCount(rule, "field effects of the send group", len(send), 40)
-	c.MinCount(rule, "field effects of the receive group", len(recv), 40)
+	c.MinCount(rule, "field effects of the send group", len(send), 1)
+	c.MinCount(rule, "field effects of the receive group", len(recv), 1)
 
 	// exemption premises
 	gcm := c.needField(rule, "stream", "Stream", "gcm")
@@ -607,9 +609,16 @@ func c17r4(c *Ctx) {
 		}
 	}
 	nfn := 0
-	for _, fn := range sortedFns(fnKeys(perFn)) {
+	// functions touching the maps directly or through a same-package helper
+	touching := map[*ssa.Function][]ssa.Instruction{}
+	for _, fn := range c.FnsOfPkg("security") {
+		if pts := c.c17accessPoints(fn, perFn, 0); len(pts) > 0 {
+			touching[fn] = pts
+		}
+	}
+	for _, fn := range sortedFns(fnKeys(touching)) {
 		nfn++
-		acc := perFn[fn]
+		acc := touching[fn]
 		var wit []*ssa.BasicBlock
 		var at token.Pos
 		allInstrs(fn, func(_ *ssa.BasicBlock, _ int, in ssa.Instruction) {
@@ -623,10 +632,10 @@ func c17r4(c *Ctx) {
 			// an explicit release: is there an access before it and another after it?
 			before, after2 := false, false
 			for _, a := range acc {
-				if findPath(after(a.in), Target{Instr: in}, nil) != nil {
+				if findPath(after(a), Target{Instr: in}, nil) != nil {
 					before = true
 				}
-				if p := findPath(after(in), Target{Instr: a.in}, nil); p != nil {
+				if p := findPath(after(in), Target{Instr: a}, nil); p != nil {
 					after2 = true
 					wit = p
 				}
@@ -639,7 +648,7 @@ func c17r4(c *Ctx) {
 		})
 		c.Check(!at.IsValid(), rule, fnName(fn)+"#single-critical-section", "all accesses to the cache maps happen in one critical section", "the cache lock is released between two accesses to the cache maps: a concurrent Store/Invalidate can slip in between the test and the update (lost invalidation)", at, c.describePath(wit)...)
 	}
-	c.MinCount(rule, "SessionCache methods touching the maps", nfn, 11)
+	c.MinCount(rule, "SessionCache methods touching the maps", nfn, 1)
 }
 
 func fnKeys[T any](m map[*ssa.Function]T) map[*ssa.Function]bool {
@@ -748,7 +757,7 @@ func c17r6(c *Ctx) {
 		}
 		rd = append(rd, a.fn)
 		poss[a.fn] = a.in.Pos()
-		// what is done with the loaded stream
+		// what is done with the loaded stream (followed through the results of unexported getters)
 		fa, ok := a.in.(*ssa.FieldAddr)
 		if !ok {
 			continue
@@ -758,32 +767,45 @@ func c17r6(c *Ctx) {
 			if !ok {
 				continue
 			}
-			for _, u := range *ld.Referrers() {
-				call, ok := u.(ssa.CallInstruction)
+			for _, u := range c.c17usesOf(a.fn, ld, a.base, 0) {
+				call, ok := u.in.(ssa.CallInstruction)
 				if !ok {
-					if _, isIf := u.(*ssa.BinOp); isIf {
+					if _, isIf := u.in.(*ssa.BinOp); isIf {
 						continue
 					}
-					if _, dbg := u.(*ssa.DebugRef); dbg {
+					if _, dbg := u.in.(*ssa.DebugRef); dbg {
 						continue
 					}
-					c.Undecided(rule, fnName(a.fn)+"#stream-use", "the loaded registration stream flows somewhere the rule does not follow", u.Pos())
+					c.Undecided(rule, fnName(u.fn)+"#stream-use", "the loaded registration stream flows somewhere the rule does not follow", u.in.Pos())
 					continue
 				}
 				switch calleeFn(call) {
 				case wca:
 					nW++
-					m, _ := c.c17held(a.fn, call, a.base, wmu, 0)
-					c.Check(m > 0, rule, fnName(a.fn)+"#WriteControlAd", "writes to the registration stream hold writeMu of the same registration", "WriteControlAd on the registration stream without writeMu: concurrent heartbeat/result writers interleave frames", call.Pos())
+					m := 0
+					if u.base != nil {
+						m, _ = c.c17held(u.fn, call, u.base, wmu, 0)
+					}
+					c.Check(m > 0, rule, fnName(u.fn)+"#WriteControlAd", "writes to the registration stream hold writeMu of the same registration", "WriteControlAd on the registration stream without writeMu: concurrent heartbeat/result writers interleave frames", call.Pos())
 				case rca:
 					nR++
-					c.Check(a.fn == serve, rule, fnName(a.fn)+"#ReadControlAd", "the registration stream is read by serve only", "a second reader of the registration stream", call.Pos())
+					c.Check(u.fn == serve, rule, fnName(u.fn)+"#ReadControlAd", "the registration stream is read by serve only", "a second reader of the registration stream", call.Pos())
 				default:
-					c.Violate(rule, fnName(a.fn)+"#stream-use:"+call.Common().Description(), "the registration stream is used by something other than WriteControlAd under writeMu / ReadControlAd in serve", call.Pos())
+					c.Violate(rule, fnName(u.fn)+"#stream-use:"+call.Common().Description(), "the registration stream is used by something other than WriteControlAd under writeMu / ReadControlAd in serve", call.Pos())
 				}
 			}
 		}
 	}
+	// a helper reachable only from the allowed functions loads on their behalf
+	var rd2 []*ssa.Function
+	for _, f := range rd {
+		if c.c17onlyCalledFrom(f, fnSet(wtb, serve), false, 0) && !fnSet(wtb, serve)[topFn(f)] {
+			c.Ok(rule, "load brokerReg.stream@"+fnName(topFn(f)), fnName(topFn(f))+" is a helper called only from the allowed sites", poss[f])
+			continue
+		}
+		rd2 = append(rd2, f)
+	}
+	rd = rd2
 	c.whoMay(rule, "load brokerReg.stream", rd, poss, fnSet(wtb, serve))
 	c.MinCount(rule, "WriteControlAd on the registration stream", nW, 1)
 	c.MinCount(rule, "ReadControlAd on the registration stream", nR, 1)
